@@ -197,7 +197,40 @@ func (w *Worker) digest(alg string, key []*Term, isHmac bool, data []*Term) []*T
 		args = append(args, w.concatBytes(data))
 	}
 	t := w.tc.UF(name, 8*hashLen(alg), args...)
+	w.ufInjective(name, t)
 	return w.splitBytes(t)
+}
+
+// ufInjective states collision-freeness of a hash/HMAC UF for the
+// applications that occur on this path: two applications whose outputs agree
+// on the first 8 bytes have equal arguments (every use in the code truncates
+// to a prefix of at least 8 bytes).  Stated in the evidence.
+func (w *Worker) ufInjective(name string, t *Term) {
+	if w.ufApps == nil {
+		w.ufApps = map[string][]*Term{}
+	}
+	for _, o := range w.ufApps[name] {
+		if o == t {
+			return
+		}
+	}
+	tc := w.tc
+	for _, o := range w.ufApps[name] {
+		var eqs []*Term
+		for i := range t.A {
+			eqs = append(eqs, tc.Eq(t.A[i], o.A[i]))
+		}
+		same := tc.And(eqs...)
+		if same.IsTrue() {
+			continue
+		}
+		pre := tc.Eq(tc.Extract(t, t.W-1, t.W-64), tc.Extract(o, o.W-1, o.W-64))
+		w.assertSilently(tc.Implies(pre, same))
+	}
+	w.ufApps[name] = append(w.ufApps[name], t)
+	w.h.mu.Lock()
+	w.h.Assumptions["hash/HMAC collision-freeness: two applications of the same hash (same input length) whose outputs agree on the first 8 bytes have equal inputs"] = true
+	w.h.mu.Unlock()
 }
 
 func (w *Worker) hashMethod(h *HashObj, name string, args []Value) Value {
